@@ -245,6 +245,7 @@ async fn px_case(out: &mut Out, rng: &mut Rng, corpus: Option<&str>) {
     }
     let r = recover_image(&store.image(), rid).await;
     out.op("AREC".into(), show_rec(&r));
+    out.op("AMAN".into(), crate::c12::show_manifest(&store.image()));
     out.count("x:case:step-functions");
     out.case(&text, accepted > 0);
     out.sample(json!({"workload": text}));
@@ -381,6 +382,75 @@ async fn actor_case(out: &mut Out, rng: &mut Rng, corpus: Option<&str>, cap: u64
     out.sample(json!({"workload": text}));
 }
 
+/// `start_workers` when the first manifest load fails: an error, no panic, no worker left behind
+async fn start_failure_case(out: &mut Out) {
+    let store = FaultStore::new(&[(0, Fault::Fail)]);
+    store.inner.lock().unwrap().record = false;
+    let wb = WriteBufferConfig { flush_interval: Duration::from_secs(3600), max_size_bytes: 1 << 30, max_deltas: 2, backpressure_threshold_bytes: 1 << 40, compression_enabled: false };
+    let integ = StreamingIntegration::with_store(Arc::new(store.clone()), streaming_cfg(&wb), 1);
+    match integ.start_workers().await {
+        Err(_) => out.count("x:case:workers:start-fails-on-manifest-load-error"),
+        Ok((handles, _)) => {
+            out.violation("C12:workers:started-on-unreadable-manifest", "start_workers succeeded although the manifest could not be loaded (a later flush would start from an empty manifest and overwrite live segments)", json!(null));
+            handles.shutdown().await;
+        }
+    }
+    out.case("start-failure", true);
+}
+
+/// the compaction worker `start_workers` spawns when `compaction.max_segments > 0` (production
+/// clock, 60 s check interval): its configuration is copied field by field from the streaming
+/// config — a pass after one interval must be the model's `compactIfNeeded` with THESE values
+async fn with_compaction_worker_case(out: &mut Out, rng: &mut Rng, cap: u64) {
+    let rid = 1;
+    let wb = WriteBufferConfig { flush_interval: Duration::from_secs(3600), max_size_bytes: 1 << 30, max_deltas: 1, backpressure_threshold_bytes: 1 << 40, compression_enabled: false };
+    let mut cfg = streaming_cfg(&wb);
+    // distinct values in every field: a swapped assignment shows
+    let nseg = rng.range(3, 6);
+    cfg.compaction.max_segments = rng.range(2, 4) as usize;
+    cfg.compaction.min_segments_to_compact = rng.range(1, 3) as usize;
+    cfg.compaction.max_segments_per_compaction = rng.range(4, 7) as usize;
+    cfg.compaction.target_segment_size = *rng.pick(&[150usize, 1 << 20, 1 << 21]);
+    cfg.compaction.tombstone_ttl = Duration::MAX; // production clock: no tombstone GC (C13 owns the clock-domain finding)
+    cfg.compaction.compression_enabled = false;
+    let store = FaultStore::new(&[]);
+    store.inner.lock().unwrap().record = false;
+    let integ = StreamingIntegration::with_store(Arc::new(store.clone()), cfg.clone(), rid);
+    let (handles, sender) = match integ.start_workers().await {
+        Ok(x) => x,
+        Err(e) => {
+            out.violation("C12:workers:start-failed", &format!("start_workers failed on an empty store: {}", e), json!(null));
+            return;
+        }
+    };
+    store.inner.lock().unwrap().calls = 0;
+    out.op(xnew_line(rid, &wb, cap, 0, &[]), "ok".into());
+    // the compaction worker's first pass runs at once on the empty store: one manifest load
+    tokio::time::sleep(Duration::from_millis(1)).await;
+    let c = &cfg.compaction;
+    let aline = |sz: u64| format!("ACOMPACT {} {} {} 0 {} {} {}", c.target_segment_size, c.min_segments_to_compact, c.max_segments_per_compaction, c.tombstone_ttl.as_millis(), c.max_segments, sz);
+    out.op(aline(0), format!("calls={} segs={}", store.calls(), segs_of(&store)));
+    let mut t = 300u64;
+    for _ in 0..nseg {
+        t += 1;
+        let u = lww_upd(&format!("k{}", t % 4), format!("v{}", t).as_bytes(), t, rid, false);
+        sender.send(delta_of(&u, rid)).expect("bridge alive");
+        out.op(sd_line("ASEND", &u), "ok".into());
+        tokio::time::sleep(Duration::from_millis(25)).await;
+        out.op("ADRAIN".into(), "ok".into());
+        out.op("ARUN".into(), format!("calls={} segs={}", store.calls(), segs_of(&store)));
+    }
+    // one check interval (60 s) of virtual time: the worker's next pass
+    tokio::time::sleep(Duration::from_secs(60)).await;
+    let newest = store.image().get(&format!("{}/manifest.json", PREFIX)).and_then(|b| serde_json::from_slice::<Manifest>(b).ok()).and_then(|m| m.segments.iter().max_by_key(|s| s.id).map(|s| s.size_bytes)).unwrap_or(0);
+    out.op(aline(newest), format!("calls={} segs={}", store.calls(), segs_of(&store)));
+    let rec = recover_image(&store.image(), rid).await;
+    out.op("AREC".into(), show_rec(&rec));
+    handles.shutdown().await;
+    out.count("x:case:workers:with-compaction-worker");
+    out.case(&format!("compaction-worker:{:?}", cfg.compaction), true);
+}
+
 /// the mailbox capacity itself: the actor is stalled inside its first store call while the
 /// bridge delivers `cap + extra` single-update batches
 async fn capacity_case(out: &mut Out, cap: u64) {
@@ -392,7 +462,10 @@ async fn capacity_case(out: &mut Out, cap: u64) {
     let integ = StreamingIntegration::with_store(Arc::new(store.clone()), streaming_cfg(&cfg), rid);
     let (handles, sender) = match integ.start_workers().await {
         Ok(x) => x,
-        Err(_) => return,
+        Err(e) => {
+            out.violation("C12:workers:start-failed", &format!("start_workers failed on an empty store: {}", e), json!(null));
+            return;
+        }
     };
     let sem = Arc::new(tokio::sync::Semaphore::new(0));
     {
@@ -641,7 +714,12 @@ pub async fn run_all(out: &mut Out, rng: &mut Rng, n: u64, paused: bool) {
             actor_case(out, &mut Rng::new(0xC12), Some(c), cap).await;
         }
         capacity_case(out, cap).await;
+        start_failure_case(out).await;
         for i in 0..n {
+            if i % 4 == 0 {
+                let mut r = rng.fork();
+                with_compaction_worker_case(out, &mut r, cap).await;
+            }
             let mut r = rng.fork();
             actor_case(out, &mut r, None, cap).await;
             if i % 3 == 0 {
